@@ -381,7 +381,8 @@ func compareExecs(base, other *Exec) *Diff {
 				return &Diff{i, "events", "type:" + ta + "/" + tb, fmt.Sprintf("event %d: kept alive: %s; restarted: %s", k, clip(a.Events[k], 400), clip(b.Events[k], 400))}
 			}
 			if a.Events[k] != b.Events[k] {
-				return &Diff{i, "events", eventType(a.Events[k]) + ":" + diffPath(a.Events[k], b.Events[k]), "event " + fmt.Sprint(k) + ": " + jsonDiff(a.Events[k], b.Events[k])}
+				return &Diff{i, "events", eventType(a.Events[k]) + ":" + diffPath(a.Events[k], b.Events[k]) + tokenKey(a.Events[k], b.Events[k]),
+					"event " + fmt.Sprint(k) + ": " + jsonDiff(a.Events[k], b.Events[k])}
 			}
 		}
 		if a.Segments != b.Segments {
@@ -582,4 +583,33 @@ func currentRunOf(s flows.Session) flows.Run {
 		}
 	}
 	return last
+}
+
+// tokenKey: when the first differing JSON leaf of two documents is a text made of `key=value` tokens (the probe and reader
+// texts of the generators), the key of the first token that differs, as ":key"; "" otherwise
+func tokenKey(a, b string) string {
+	var x, y any
+	if json.Unmarshal([]byte(a), &x) != nil || json.Unmarshal([]byte(b), &y) != nil {
+		return ""
+	}
+	_, l, r := firstDiff(x, y, "")
+	ls, ok1 := l.(string)
+	rs, ok2 := r.(string)
+	if !ok1 || !ok2 {
+		return ""
+	}
+	lt, rt := strings.Split(ls, " "), strings.Split(rs, " ")
+	key := ""
+	for i := 0; i < len(lt) && i < len(rt); i++ {
+		if j := strings.Index(lt[i], "="); j > 0 && !strings.ContainsAny(lt[i][:j], "{}\"") {
+			key = lt[i][:j]
+		}
+		if lt[i] != rt[i] {
+			if key != "" {
+				return ":" + key
+			}
+			return ""
+		}
+	}
+	return ""
 }
